@@ -35,7 +35,7 @@ type Case struct {
 type LongSpec struct {
 	Pre  string `json:"pre"`  // hex
 	N    int    `json:"n"`    // payload length
-	Pat  int    `json:"pat"`  // 0 byte pattern, 1 'a', 2 hex digits, 3 '9', 4 8-byte big-endian counters (sorted, unique)
+	Pat  int    `json:"pat"`  // 0 byte pattern, 1 'a', 2 hex digits, 3 '9', 4 8-byte blocks BE32(j)BE32(j) (sorted, unique keys)
 	Tail string `json:"tail"` // hex
 }
 
@@ -53,7 +53,7 @@ func (l *LongSpec) build() []byte {
 		case 3:
 			b = append(b, '9')
 		case 4:
-			b = append(b, byte(uint64(i/8)>>(8*uint(7-i%8))))
+			b = append(b, byte(uint32(i/8)>>(8*uint(3-i%4))))
 		default:
 			b = append(b, byte(i*31+i>>8+1))
 		}
